@@ -918,6 +918,40 @@ class RestartAndStoredEnergies:
             if not scf.is_converged or lowest < -1e-7:
                 bad.append(dict(case=f"{sym} atom, unrestricted: run(); converge_empty_bands(Nempty=1); perturbation of relative size 1e-3", converged=bool(scf.is_converged),
                                 largest_lowering_of_the_band_energy=lowest))
+        # (e) weights assigned on the k-point object of an SCF object (scf.kpts.wk = ...) before the run: every k-weighted contribution follows THOSE weights -
+        # the stored kinetic energy is sum_k wk f <psi| -1/2 nabla^2 |psi> of the returned orbitals (explicit sum over the plane waves), run() returns the sum of
+        # the stored contributions, and the reported minimum is a stationary point (directional derivative along a random direction within 1e-3)
+        from eminus.dft import orth
+
+        cell = Cell("He", "fcc", ecut=5, a=5.5)
+        cell.kpts.kmesh = [2, 1, 1]
+        scf = SCF(cell, etol=1e-8, opt={"pccg": 100}, verbose="critical")
+        scf.kpts.wk = [0.25, 0.75]
+        e = float(scf.run())
+        at = scf.atoms
+        f = fields(scf)
+        Y = orth(at, scf.W)
+        wk = np.asarray(at.kpts.wk)
+        ekin = 0.0
+        for ik in range(at.kpts.Nk):
+            for sp in range(at.occ.Nspin):
+                y = np.asarray(Y[ik][sp])
+                ekin += 0.5 * wk[ik] * float(np.sum(np.asarray(at.occ.f)[ik, sp][None, :] * float(at.Omega) * np.asarray(at.Gk2c[ik])[:, None] * np.abs(y) ** 2))
+        rng = np.random.default_rng(5)
+        D = [rng.standard_normal(np.shape(w)) + 1j * rng.standard_normal(np.shape(w)) for w in scf.W]
+        nrm = np.sqrt(sum(np.linalg.norm(d) ** 2 for d in D))
+        W0 = [np.asarray(w).copy() for w in scf.W]
+
+        def E(t):
+            scf.W = [w + t * d / nrm for w, d in zip(W0, D)]
+            scf._precompute()
+            return float(get_E(scf))
+
+        slope = (E(1e-4) - E(-1e-4)) / 2e-4
+        scf.W = W0
+        if not scf.is_converged or abs(f["Ekin"] - ekin) > 1e-8 or abs(e - sum(f.values())) > 1e-12 or abs(slope) > 1e-3 or not np.allclose(wk, [0.25, 0.75]):
+            bad.append(dict(case="fcc He, 2x1x1 mesh, scf.kpts.wk = [0.25, 0.75]; run()", converged=bool(scf.is_converged), stored_Ekin=f["Ekin"], Ekin_of_the_returned_orbitals=ekin,
+                            returned_minus_sum_of_stored=e - sum(f.values()), slope_at_the_reported_minimum=slope, weights=wk.tolist()))
         return bad
 
     def __call__(self, ob, tier, seed):
